@@ -31,6 +31,54 @@ CHECKS = {
         "KF-1 open: multi-iteration runs with update_variances are excluded by construction and counted; the variance limit r->0 is compared with ML only when means are updated too (the statement's explicit formula is authoritative otherwise).",
         "DESIGN.md section 4, C05",
     ),
+    "C06": (
+        "Hypothesis-generated k-means trainings vs a reference Lloyd step written with explicit differences; independent distortion monotone; predicted stop iteration",
+        "Generated-input search (explicit, seeded 'random' and 'k-means||' initialisation; NumPy and Dask; slow-converging 1-D sets so that caps up to 12 matter): each centroid equals the mean of the rows nearest to its predecessor, the independently computed distortion never rises while no cluster is empty, the reported criterion equals the mean squared distance for the centroids entering the last iteration (also via transform), and fit(threshold, cap) stops at the predicted iteration.",
+        "'k-means++' excluded (third-party signature breakage in this environment); near-ties discarded and counted; empty-cluster steps exempt from descent.",
+        "DESIGN.md section 4, C06",
+    ),
+    "C07": (
+        "Hypothesis-generated UBM/U/V/D/sessions; differential against reference block coordinate ascent; monotone joint log-posterior; fixed point vs dense-solve joint mode",
+        "Generated-input search with D of order 1 (every coupling alive), fractional and zero counts, 1-5 sessions: enroll(K) equals K rounds of conditional-mode updates written from the model; the joint log-posterior of the reconstructed state never decreases in K and never exceeds its value at the exact mode; when the iterates stop moving (K up to 2048) they equal the mode from one dense solve.",
+        "Convergence is checked through fixed points (not 'eventually'); runs that have not converged within 2048 iterations are counted inconclusive.",
+        "DESIGN.md section 4, C07",
+    ),
+    "C08": (
+        "Hypothesis-generated UBMs/models/statistics/offsets vs a triple-loop reference; algebraic (metamorphic) laws; finite-difference derivative identity",
+        "Generated-input search over every accepted input form (machines, 2-D/3-D arrays, lists; single or list statistics incl. zero-frame and sum(n)!=t; scalar / (C,F) / (T,C,F) offsets; prior or MAP machine as UBM): equals the reference; zero for the UBM; homogeneous and additive in the model offset; additive over statistics; and equals the Richardson-extrapolated derivative of the UBM log-likelihood along the model direction.",
+        "Finite-difference tolerance 1e-6 relative to sum|terms| (measured worst 2e-11).",
+        "DESIGN.md section 4, C08",
+    ),
+    "C09": (
+        "Hypothesis-generated labelled statistics/initial subspaces; monotonicity of independently computed closed-form phase marginals along the public per-phase steps; differential fit == composition",
+        "Generated-input search (2-5 classes, shuffled labels, fractional/zero counts, explicit or seeded U,V,D): after every M-step of the V, U and D phases the phase marginal 1/2 b'L^-1 b - 1/2 log|L| has not decreased; shapes and finiteness hold; JFAMachine.fit equals the composition of the public steps, and V after fit(k) is monotone in k.",
+        "Labels are integer arrays 0..K-1; tolerance 1e-9*(1+|value|).",
+        "DESIGN.md section 4, C09",
+    ),
+    "C10": (
+        "Hypothesis-generated T/sigma/statistics vs an independent posterior solve; one-step differential against a reference EM step; monotone independently computed marginal likelihood",
+        "Generated-input search with fractional and zero counts (incl. a component empty in every item), update_sigma on/off, active and inactive floors: project solves the posterior normal equations (residual + independent solve), empty statistics give the zero vector, transform == map(project); the first training iteration equals a reference EM step from the same seeded T0; the marginal likelihood never decreases while the floor is inactive; sigma >= floor; all finite.",
+        "The trajectory is obtained by re-seeding NumPy's global generator before each fit (the initial T is drawn from it).",
+        "DESIGN.md section 4, C10",
+    ),
+    "C11": (
+        "Hypothesis-generated machines/clients/probes; reference channel-compensated linear score; differential between array-level and statistics-level entry points",
+        "Generated-input search: score equals the reference linear score of the client mean against the pooled probe with the UBM shifted by U x_hat (independent solve), several statistics score as their sum, estimate_x/estimate_ux equal the reference, scoring leaves the probe untouched; score_using_array, enroll_using_array, ISVMachine.transform and fit_using_array (NumPy and Dask, 2-D and 3-D) agree with the statistics-level calls and with the references.",
+        "Labels 0..K-1 as integer arrays; nested lists of probe templates are not generated (estimate_x does not accept them).",
+        "DESIGN.md section 4, C11",
+    ),
+    "C13": (
+        "Hypothesis-constructed degenerate training sets; validity predicate evaluated after every iteration for every trainer",
+        "Generated-input search on degenerate data by construction (duplicates, constant columns, fewer distinct rows than components, outliers, identical rows, starved components/centroids, zero-count i-vector components) for k-means, GMM ML, GMM MAP, k-means-initialised GMM and i-vector training: parameters finite, weights on the simplex up to the count floor, variances >= floors and > 0, sigma >= floor, finite training log-likelihoods, after every iteration.",
+        "Strictly positive variance floors; |features| <= 1e6.",
+        "DESIGN.md section 4, C13",
+    ),
+    "C20": (
+        "Hypothesis-generated centroids/rows with large offsets vs explicit squared differences; nearest-centroid validity predicate; member statistics vs numpy.var within the formula's forward-error bound; exact GMM initialisation differential",
+        "Generated-input search (offsets up to 1e8 spreads, single sample / batch / every generated row-chunking): transform equals explicit squared distances, predict returns a nearest centroid, NumPy == Dask == single; cluster weights are member fractions and variances the biased member variances within 16*n*eps*max(x^2); a GMM initialised from k-means starts from exactly those centroids, floored variances and weights.",
+        "Statistics of empty clusters belong to C13; assignment ties discarded for the statistics checks.",
+        "DESIGN.md section 4, C20",
+    ),
 }
 
 NOT_YET = {}
